@@ -46,8 +46,13 @@ def adversarial_designs():
             m.add(L()(a=h.Concat(sig), b=m.v), name="keep")
         elif how == "both-ports-sliced":
             m.add(L()(a=sig[0], b=sig[-1]), name="keep")
+        elif how == "reassigned":
+            # connected, then assigned again under its own name (the `m.x = m.x(...)` idiom re-adds what is already there)
+            m.add(L()(a=sig, b=m.v), name="keep")
+            setattr(m, name, sig)
+            setattr(m, "keep", m.get("keep")(b=m.v))
         # "unused": declared, connected to nothing
-    USES = ("direct", "slice", "concat", "both-ports-sliced", "unused")
+    USES = ("direct", "slice", "concat", "both-ports-sliced", "unused", "reassigned")
     # 1. implicit signal behind a port reference: i0_a
     for suf in suffixes:
         for first in (True, False):
